@@ -126,7 +126,7 @@ func runC11(tier string) int {
 				}
 				return model.LeafForm((i*7+j.formOf)%model.NumLeafForms, i+1)
 			})
-			for pos := 0; pos < numCondPositions; pos++ {
+			for pos := 0; pos <= numCondPositions; pos++ {
 				sc := condProgram(cond, pos)
 				c11Eval(r, sc, copts, fmt.Sprintf("k=%d pos=%d expr=%q", j.k, pos, model.CondString(cond)), j.k >= 2)
 			}
@@ -198,7 +198,7 @@ func runC11(tier string) int {
 	r.Assume("command config: fixed var_name, var_name_arg_position 0 and 1, a command without argument list, a constant argument, an inline text argument",
 		"the preamble is an observable command whose text is the statement rendering 'name arg, arg' (C10 checks that rendering rule separately)")
 	return r.Finish(r.Get("evaluations"), r.Get("nontrivial"),
-		"C02's expression trees with 1-2 leaves replaced by AutoVar leaves (7 command kinds incl. arguments containing '%' x 9 comparison forms, rotated for k>=3) x decorations x 13 condition positions x optimize on/off, plus AutoVar switch operands in 4 contexts, plus AutoVar switch / if / while / do...while statements inside poryswitch cases (colon and brace form, selected directly and through '_'); the programs with <= 2 leaves, the switch programs and the poryswitch-wrapped ones also compiled with line markers on, without and with an input path; lockstep exploration (the preamble command, each operand read and each body command are observable events); non-trivial = >= 2 leaves or a switch")
+		"C02's expression trees with 1-2 leaves replaced by AutoVar leaves (7 command kinds incl. arguments containing '%' x 9 comparison forms, rotated for k>=3) x decorations x 14 condition positions (the 14th - a trailing elif with an empty body - in lazy mode: its AutoVar command must still run) x optimize on/off, plus AutoVar switch operands in 4 contexts, plus AutoVar switch / if / while / do...while statements inside poryswitch cases (colon and brace form, selected directly and through '_'); the programs with <= 2 leaves, the switch programs and the poryswitch-wrapped ones also compiled with line markers on, without and with an input path; lockstep exploration (the preamble command, each operand read and each body command are observable events); non-trivial = >= 2 leaves or a switch")
 }
 
 func c11Eval(r *harness.Run, sc *model.Script, copts *comp.Opts, desc string, nontrivial bool) {
@@ -210,7 +210,13 @@ func c11EvalSrc(r *harness.Run, sc *model.Script, text string, copts *comp.Opts,
 	scripts := []*model.Script{sc}
 	src := "const KONST = 7 + 1\nconst VAR_RES2 = VAR_OTHER\nconst VAR_K = VAR_OTHER2\n" + text
 	for _, opt := range []bool{true, false} {
-		ok, rej, st, v, out := checkScripts(scripts, src, opt, machine.Lockstep, copts)
+		// position 13 (a trailing elif with an empty body): nothing depends on the operands there, so only the commands are
+		// observable (lazy mode); everywhere else every operand read is an event (lockstep)
+		mode := machine.Lockstep
+		if strings.Contains(desc, " pos=13 ") {
+			mode = machine.Lazy
+		}
+		ok, rej, st, v, out := checkScripts(scripts, src, opt, mode, copts)
 		if !ok {
 			r.Add("rejected_wellformed", 1)
 			r.Report(harness.Violation{Sig: "C11:rejected:" + firstWords(rej, 6), Summary: fmt.Sprintf("well-formed AutoVar condition rejected: %s\n  source: %q", rej, src), Replay: map[string]interface{}{"source": src, "error": rej}})
@@ -228,7 +234,7 @@ func c11EvalSrc(r *harness.Run, sc *model.Script, text string, copts *comp.Opts,
 				Summary: fmt.Sprintf("%s optimize=%v: %s\n  source: %q", desc, opt, v, src),
 				Replay:  map[string]interface{}{"desc": desc, "source": src, "optimize": opt, "reference_next_event": v.A.String(), "emitted_next_event": v.B.String(), "observable_prefix": v.Trace, "emitted_assembly": out},
 				Recheck: func() bool {
-					_, _, _, v2, _ := checkScripts([]*model.Script{scc}, src, opt, machine.Lockstep, copts)
+					_, _, _, v2, _ := checkScripts([]*model.Script{scc}, src, opt, mode, copts)
 					return v2 != nil
 				},
 			})
@@ -247,7 +253,7 @@ func c11EvalSrc(r *harness.Run, sc *model.Script, text string, copts *comp.Opts,
 					continue
 				}
 				r.Add("line_marker_settings_explored", 1)
-				ok2, rej2, _, v2, out2 := checkScripts(scripts, src, opt, machine.Lockstep, &o)
+				ok2, rej2, _, v2, out2 := checkScripts(scripts, src, opt, mode, &o)
 				if !ok2 {
 					r.Report(harness.Violation{Sig: "C11:rejected-with-markers:" + firstWords(rej2, 6), Summary: fmt.Sprintf("rejected with line markers (path %q): %s\n  source: %q", lm.Path, rej2, src), Replay: map[string]interface{}{"source": src, "error": rej2, "line_markers": true, "path": lm.Path}})
 				} else if v2 != nil {
